@@ -47,3 +47,12 @@ LEVEL_TEXT = ('Kernel-checked frontier/initCache theorems cover the tree after a
 LEVEL_NOTE = ("Trusted: Coq kernel + vm_compute; Gallina Keccak (cross-checked); hand transcription of AddLeaf/initCache/Bridge.Hash and of the "
               "Solidity DepositContract; SQLite; the theorems that read stored nodes assume an injective node hash (stated hypothesis).")
 TECHNIQUE = "Coq proof by induction over tree height (frontier invariant) + differential correspondence via vm_compute"
+
+# the injected-GER store part of C04 (real lastgersync processor: reorgs vs a twin that never saw the dropped blocks)
+import ger_common
+PROPERTIES_V = PROPERTIES_V + ["theories/Properties/GerStore.v"]
+MAKE_TARGETS = MAKE_TARGETS + ["theories/Properties/GerStore.vo"]
+
+
+def extra_checks(chk):
+    ger_common.run_c04_part(chk)
